@@ -34,8 +34,8 @@ CLAIMED = {
 
 CLAIMED['C16'] = dict(
    technique='interprocedural effect analysis: SQL statements parsed from string literals at every statement site, propagated over the resolved call graph (class-hierarchy analysis for virtual calls), judged per public observing operation',
-   text='Effect analysis without execution: the public surface (database, crate, track, the five 2.x table classes, engine_library, load_database, database_exists) is re-materialised from the type-checked headers and split into observers and mutators; for each of the observers the set of SQL statements and file-system calls reachable through any overrider is computed from the resolved call graph; E1 requires it to contain only SELECT / read-only PRAGMA / ATTACH of existing files, E2 no transaction, E3 no directory creation, schema creation, output stream or non-literal statement, E4 an existence test before each ATTACH, E5 (positive control) every mutator must show a write through the same graph. Holds for all inputs and states because it quantifies over code paths, not executions.',
-   note='Trusted: clang AST, call-graph construction (sa/callgraph.py), the SQL reader; SQLite: SELECT and read-only PRAGMA change nothing, opening/attaching an existing file does not change it. Not decided: creation of an empty p.db when a legacy directory has m.db but no p.db; journal/WAL side files.',
+   text='Effect analysis without execution: the public surface (database, crate, track, the five 2.x table classes, engine_library, load_database, database_exists) is re-materialised from the type-checked headers and split into observers and mutators; for each of the observers the set of SQL statements and file-system calls reachable through any overrider is computed from the resolved call graph; E1 requires it to contain only SELECT / read-only PRAGMA / ATTACH of existing files, E2 no transaction, E3 no directory creation, schema creation, output stream or non-literal statement, E4 an existence test of the very same symbolic path before each ATTACH and each sqlite::database open, E5 (positive control) every mutator must show a write through the same graph. Holds for all inputs and states because it quantifies over code paths, not executions.',
+   note='Trusted: clang AST, call-graph construction (sa/callgraph.py), the SQL reader; SQLite: SELECT and read-only PRAGMA change nothing, opening/attaching an existing file does not change it. Not decided: journal/WAL side files. One genuine defect repaired (loading a legacy library without p.db created it).',
    ref='DESIGN.md 4 C16')
 
 CLAIMED['C14'] = dict(
